@@ -23,6 +23,8 @@ ASSUMPTIONS = ['plaintext recovery is checked with acceptance enabled; with acce
                'COSE_Encrypt with wrapped content keys needs the pycose fork pinned in pyproject.toml and is not exercised (see C03)']
 CHUNK = 4
 BUDGET = {'quick': 40, 'thorough': 600}
+#: one run makes hundreds of evaluations (each a freshly sourced, altered, delivered bundle): longer per-run watchdog
+WATCHDOG_S = 900
 
 
 def gen(ch, tier):
